@@ -137,6 +137,7 @@ def _adjoint_path(res, cfg, facts0, run, shapes, sub, none, tau, interior_fn, ma
         facts0 = dict(facts0, path=[bool(d) for _, d in pc])
     sats = []
     first = None
+    pw_dec = None
     for k in range(nl):
         if none[k] or not sub[k]:
             continue
@@ -150,7 +151,7 @@ def _adjoint_path(res, cfg, facts0, run, shapes, sub, none, tau, interior_fn, ma
             interior = bool(interior_fn(k, idx, ga.shape)) if interior_fn else True
             if got is None:
                 if not true.is_zero():
-                    sats.append((k, idx, None, interior, 'nograd'))
+                    sats.append((k, idx, None, interior, 'nograd', tau))
                     break
                 continue
             d = got - true
@@ -158,13 +159,23 @@ def _adjoint_path(res, cfg, facts0, run, shapes, sub, none, tau, interior_fn, ma
                 first = d
             if not d.is_zero():
                 res.nontrivial = True
-            v, model = solver.decide_amplified(d, tau, label='leaf%d%s' % (k, list(idx)))
+            tau_used = tau
+            if not pc and smt.has_selection(d):
+                # the backward pass selects values by magnitude (torch.where / clamp on the cotangent): compare on shrinking boxes
+                if pw_dec is None:
+                    pw_dec = smt.PiecewiseDecider(st)
+                    res.notes.append('piecewise-linear backward: compared on cotangent boxes of radius %s' % [str(x) for x in smt.PIECEWISE_SCALES])
+                v, model, s_ = pw_dec.decide(d, tau, label='leaf%d%s' % (k, list(idx)))
+                if v == 'sat':
+                    tau_used = Fraction(tau) * s_
+            else:
+                v, model = solver.decide_amplified(d, tau, label='leaf%d%s' % (k, list(idx)))
             if v == 'sat':
                 if not any(s[0] == k and s[3] == interior for s in sats):
                     if pc:
                         nm = solver.nice_model(solver._last_query, [a for a in solver.vars if P.ATOMS.kind[a] in ('in', 'cot')])
                         model = nm or model
-                    sats.append((k, idx, model, interior, 'value'))
+                    sats.append((k, idx, model, interior, 'value', tau_used))
             elif v != 'unsat':
                 res.status = 'inconclusive'; res.notes.append('solver answered %s' % v)
             if len(sats) >= max_sat or (interior_fn is None and any(s[0] == k for s in sats)) or \
@@ -177,17 +188,19 @@ def _adjoint_path(res, cfg, facts0, run, shapes, sub, none, tau, interior_fn, ma
         if v == 'unsat':
             res.status = 'error'; res.trace = 'canary query was not refuted (%s)' % v; return None
     res.stats = st
-    for k, idx, model, interior, kind in sats:
+    for k, idx, model, interior, kind, tau_u in sats:
         facts = dict(facts0, leaf=(leaf_names[k] if leaf_names else k), interior=bool(interior), nograd=kind == 'nograd')
+        if tau_u != tau:
+            facts['cotangent_scale'] = float(Fraction(tau_u) / Fraction(tau))
         gvv = None if model is None else [core.model_array(model, gi) for gi in cids]
-        rep = replay_adjoint(run, shapes, sub, none, gvv, k, idx, float(tau))
+        rep = replay_adjoint(run, shapes, sub, none, gvv, k, idx, float(tau_u))
         if kind == 'nograd':
             res.violations.append(dict(what='input %s requires grad and influences the output but receives no gradient' % facts['leaf'], facts=facts,
                                        replay=dict(kind='nograd', leaf=k, idx=list(idx)), reproduced=rep['reproduced']))
         else:
             res.violations.append(dict(what='gradient of input %s at %s differs from J^T g by %.3g (%s)%s' % (facts['leaf'], list(idx), rep['diff'], 'interior' if interior else 'border region',
                                                                                                                  ' on the data-dependent path %s' % facts0.get('path') if pc else ''),
-                                       facts=facts, path_dependent=bool(pc), replay=dict(kind='grad', g=[g.tolist() for g in gvv], leaf=k, idx=list(idx), tau=float(tau)), reproduced=rep['reproduced']))
+                                       facts=facts, path_dependent=bool(pc), replay=dict(kind='grad', g=[g.tolist() for g in gvv], leaf=k, idx=list(idx), tau=float(tau_u)), reproduced=rep['reproduced']))
     if res.violations:
         res.status = 'violation'
     return dict(acc=acc, leaves=leaves, lids=lids, cids=cids, outs=outs, vals=vals)
